@@ -1,0 +1,7 @@
+//go:build !verif
+
+package dastard
+
+// verifPoint marks a named synchronisation point for the verification harness.
+// Without the build tag "verif" it does nothing (and is inlined away).
+func verifPoint(name string) {}
